@@ -84,6 +84,14 @@ class LabelScheduleSource(ScheduleSource):
                 continue
 
             schedule_list = task.labels.get("schedule", []).copy()
+            # Several entries may share a time: remove the one that was sent.
+            for idx, schedule in enumerate(schedule_list):
+                if (
+                    schedule.get("time") == scheduled_task.time
+                    and schedule.get("schedule_id") == scheduled_task.schedule_id
+                ):
+                    task.labels.get("schedule", []).pop(idx)
+                    return
             for idx, schedule in enumerate(schedule_list):
                 if schedule.get("time") == scheduled_task.time:
                     task.labels.get("schedule", []).pop(idx)
